@@ -17,6 +17,31 @@ ASSUMPTIONS = ["np.prod / np.sum are not exactly permutation-invariant in double
                "Fisher's -2 log(prod p) and Liptak's normal quantiles are compared with their formulas numerically (1e-9)"]
 
 
+def prefix_hazard(rng, tries=400):
+    """a short table (plus1, so the column minima get row p-values above 1) and large observed p-values such that on some proper
+    prefix of the columns every row's product of p-values is at most the observed full product, although some row's full product
+    exceeds it: any shortcut that decides from a prefix of the columns is wrong here (found by rejection sampling with exact arithmetic)"""
+    for _ in range(tries):
+        B = rng.randint(3, 12); n = rng.randint(2, 4); hi = rng.choice([2, 3, 9])
+        D = [[rng.randint(0, hi) for _ in range(n)] for _ in range(B)]
+        pv = [Fr(B + 1 - rng.choice([0, 0, 1, 1, 2]), B + 1) for _ in range(n)]
+        P = row_pvals_exact(D, True)
+        obs = Fr(1)
+        for t in pv:
+            obs *= t
+        def prod(v):
+            o = Fr(1)
+            for t in v:
+                o *= t
+            return o
+        if not any(prod(r) > obs for r in P):
+            continue
+        for j in range(n - 1):
+            if all(prod(r[:j + 1]) <= obs for r in P):
+                return B, n, D, pv
+    return None
+
+
 LADDER = [Fr(1) - Fr(1, 10**9), Fr(float(1 - 2.0 ** -52)), Fr(float(np.nextafter(1.0, 0.0))), Fr(1)]
 
 
@@ -56,6 +81,16 @@ def run(ctx):
                 pv[i0] = ctx.rng.choice(LADDER[:-1])
         if comb != "liptak" and ctx.rng.random() < 0.25:    # all observed p-values at the top of the range (and a short table)
             pv = [Fr(B + c - ctx.rng.choice([0, 0, 1, 2]), B + c) if B + c > 3 else Fr(1) for _ in range(n)]
+        if comb == "fisher" and ctx.rng.random() < 0.25:
+            hz = prefix_hazard(ctx.rng)
+            if hz is not None:
+                B, n, D, pv = hz; plus1 = True; c = 1; hi = 9; ctx.count("fisher-prefix-hazard")
+        elif comb == "fisher" and ctx.rng.random() < 0.35:
+            # short table, plus1 (row p-values of the column minima exceed 1), every observed p-value large: a row can overtake
+            # the observed product only through a later column
+            B = ctx.rng.randint(3, 12); plus1 = True; c = 1; n = ctx.rng.randint(2, 4); hi = ctx.rng.choice([2, 3, 9])
+            D = [[ctx.rng.randint(0, hi) for _ in range(n)] for _ in range(B)]
+            pv = [Fr(B + 1 - ctx.rng.choice([0, 0, 1, 1, 2]), B + 1) for _ in range(n)]; ctx.count("fisher-large-p-short-table")
         det = {"call": "npc", "pvalues": [str(t) for t in pv], "distr": D, "combine": comb, "plus1": plus1}
         r0 = call(pv, D, comb, plus1)
         ctx.case((tuple(pv), tuple(map(tuple, D)), comb, plus1), True, det); ctx.count("base-" + comb)
@@ -147,7 +182,7 @@ def run(ctx):
                     ctx.violation("oracle", det, site="npc")
         if name != "liptak":
             ge, amb = npc_exact(pv, D, name, plus1)
-            if amb == 0 and k0 != ge + c:
+            if k0 is None or not (ge + c - amb <= k0 <= ge + c):      # exact ties between different p-vectors may be lost in doubles, never gained
                 det.update({"issue": "the global p-value is not (c + #{rows whose combined statistic >= observed})/(c + B)", "returned": float(r0[1]),
                             "expected": f"{ge + c}/{B + c}"})
                 ctx.violation("oracle", det, site="npc"); continue
